@@ -14,7 +14,7 @@ def idx_set(n, rng):
 def name_variants(names, rng):
     out = [b'', b'nope', b'NOPE ']
     for n in names[:4]:
-        out += [n, n + b' ', n + b'  ', n.upper(), n.lower(), n.swapcase(), b' ' + n, n[:-1] if n else b'x', n + b'\t', n + b'\n']
+        out += [n, n + b' ', n + b'  ', n.upper(), n.lower(), n.swapcase(), b' ' + n, n[:-1] if n else b'x', n + b'\t', n + b'\n', n.split(b':')[-1] if b':' in n else b'S:' + n]
     return out
 
 def build_case(rng, cid):
@@ -153,13 +153,13 @@ def run(rep, work, rng, tier):
     # whatever was looked up before and wherever
     ndup = 0
     for i in range(n):
-        base = [b'HEAD', b'LASI', b'RASI', b'X', b'x', b'X ', b'X\t', b'LASI\n', b'X\t ']
+        base = [b'HEAD', b'LASI', b'RASI', b'X', b'x', b'X ', b'X\t', b'LASI\n', b'X\t ', b'S:LASI', b'S:HEAD', b'HEAD:1', b'LASI.x']
         conts = []
         for _ in range(rng.choice([1, 2, 3])):
             k = rng.choice([1, 2, 3, 4, 6]); conts.append([rng.choice(base) for _ in range(k)])
         qs = []
         for _ in range(rng.choice([3, 6, 10])):
-            ci = rng.randrange(len(conts)); qs.append((ci, rng.choice(conts[ci] + [b'NOPE'])))
+            ci = rng.randrange(len(conts)); qs.append((ci, rng.choice(conts[ci] + [b'NOPE'] + base[:3])))
         line = ' '.join([str(len(conts))] + ['%d %s' % (len(cn), ' '.join(hx(x) for x in cn)) for cn in conts] + [str(len(qs))] + ['%d %s' % (ci, hx(q)) for ci, q in qs])
         cases.append(('dup%d' % i, ['mk.pts ' + line, 'mk.chs ' + line])); ndup += 1
         # the same containers with elements RENAMED IN PLACE between look-ups (point_nonConst(j).name(..)): a look-up answers
